@@ -98,6 +98,49 @@ def _worker_run(args):
     return res
 
 
+def _worker_regress(args):
+    """One committed regression case (the minimised world of a defect that
+    was repaired): executed like any generated run; if the violation comes
+    back it is reported like any other."""
+    prop, path, k, per_run_timeout = args
+    t0 = time.time()
+    old = signal.signal(signal.SIGALRM, _alarm)
+    signal.alarm(int(per_run_timeout))
+    seed = -1
+    try:
+        with open(path) as f:
+            rec = json.load(f)
+        case = rec['case']
+        seed = case.get('seed', -1)
+        res = prop.run_case(case)
+        res.setdefault('status', 'ok')
+        if res.get('violations'):
+            res['case'] = case
+        res.setdefault('probes', {})['regression.replayed'] = 1
+    except RunTimeout:
+        res = {'status': 'timeout', 'violations': []}
+    except BaseException as e:
+        res = {'status': 'error', 'violations': [],
+               'error': ''.join(traceback.format_exception(
+                   type(e), e, e.__traceback__))[-3000:]}
+    finally:
+        signal.alarm(0)
+        signal.signal(signal.SIGALRM, old)
+    res['i'] = -1000 - k
+    res['seed'] = seed
+    res['wall'] = time.time() - t0
+    res['regression'] = os.path.basename(path)
+    return res
+
+
+def regression_files(prop_id):
+    d = os.path.join(ROOT, 'regressions')
+    if not os.path.isdir(d):
+        return []
+    return [os.path.join(d, f) for f in sorted(os.listdir(d))
+            if f.startswith(prop_id + '-') and f.endswith('.json')]
+
+
 def run_one(prop, case, timeout=600):
     old = signal.signal(signal.SIGALRM, _alarm)
     signal.alarm(int(timeout))
@@ -208,6 +251,9 @@ def run_batch(prop, tier, verif_seed, workers=None):
     stop_submitting = False
     with ProcessPoolExecutor(max_workers=workers, mp_context=ctx) as ex:
         pending = set()
+        for k, path in enumerate(regression_files(prop.id)):
+            pending.add(ex.submit(_worker_regress,
+                                  (prop, path, k, per_run)))
         while True:
             while (not stop_submitting and next_i < n_runs
                    and len(pending) < workers * 2):
